@@ -109,6 +109,18 @@ func runParseCase(in *pIn) (lit string, outcome string) {
 			r = "PIPanic"
 		}
 		return fmt.Sprintf("PCRange %s %s %s", opCoq(in.Op), in.V.Coq(), r), strings.Fields(strings.Trim(r, "()"))[0]
+	case "intsnf": // the value lists of a range holder with EnableFloat2Int = false
+		var zs []int64
+		var err error
+		pk := safeCall(func() { zs, err = parser.ParseIntergers(v, false) })
+		r := "PIPanic"
+		if !pk {
+			r = "PIErr"
+			if err == nil {
+				r = fmt.Sprintf("(PIOk %s)", zlist(zs))
+			}
+		}
+		return fmt.Sprintf("PCIntsNF %s %s", in.V.Coq(), r), strings.Fields(strings.Trim(r, "()"))[0]
 	case "rangenf": // the range container's operand decoding as a holder with EnableFloat2Int = false calls it
 		r := "PIPanic"
 		pk := safeCall(func() {
